@@ -161,6 +161,22 @@ End Eval.
 
 Definition FUEL : nat := 64.
 
+(* functions called by a block; a program is closed when it defines every
+   function its bodies call (used to transport theorems between programs that
+   agree on the functions involved) *)
+Fixpoint callees_stmt (st : stmt) : list string :=
+  match st with
+  | SCall _ f _ => [f]
+  | SWith _ b | SIf _ b =>
+      (fix go (l : list stmt) : list string :=
+         match l with [] => [] | x :: r => (callees_stmt x ++ go r)%list end) b
+  | _ => []
+  end.
+Definition callees (ss : list stmt) : list string := flat_map callees_stmt ss.
+Definition definedb (Q : prog) (g : string) : bool := existsb (String.eqb g) (map fst Q).
+Definition closedb (Q : prog) : bool :=
+  forallb (fun nf => forallb (definedb Q) (callees (f_body (snd nf)))) Q.
+
 (* ---------------------------------------------------------------- the library, as recognised bodies *)
 Definition v := EVar.
 
